@@ -453,8 +453,8 @@ class C19(Property):
     exhaustive_note = ("every combination of (generator setting, block setting, set() inside the block, tag option) in "
                        "{absent,on,off,auto} for each of the five auto_* options on a tag the transform applies to, with and "
                        "without a pre-existing attribute")
-    quick_n = 3000
-    thorough_n = 100000
+    quick_n = 40000
+    thorough_n = 400000
 
     # ------------------------------------------------------------------ cases
     def corpus(self):
